@@ -320,3 +320,46 @@ def small_trees(max_branches, nvars=3, roles=(':r', ':r-of', ':s'), atoms=('k',)
 
     for t, f, b in node(0, 1, max_branches):
         yield t, f
+
+
+# ---- deterministic deep chains and huge trees (size / depth thresholds) ------------------------------------------------
+
+def deep_chain(depth, variant=0):
+    """A well-formed chain of *depth* nested nodes a0 (a1 (a2 ...)); after the nested branch, every 7th node carries an
+    extra branch that depends on *variant*: an inverted re-entrancy to an ancestor, a forward re-entrancy to the ancestor,
+    an attribute, or an inverted re-entrancy to the root."""
+    cur = ['a%d' % (depth - 1), [['/', 'leaf'], [':mod', 'x']]]
+    for i in range(depth - 2, -1, -1):
+        br = [['/', 'n%d' % (i % 4)]] if i % 5 else []
+        br.append([':ARG0' if i % 3 else ':ARG1-of', cur])
+        if i % 7 == 3:
+            anc = 'a%d' % max(0, i - 2)
+            if variant == 0:
+                br.append([':ARG1-of', anc])
+            elif variant == 1:
+                br.append([':ARG2', anc])
+            elif variant == 2:
+                br.append([':quant', '%d' % i])
+            else:
+                br.append([':ARG3-of', 'a0'])
+        cur = ['a%d' % i, br]
+    return cur
+
+
+def huge_tree(n, shape):
+    """star: one node with n children; comb: chain of n//4 nodes each with 3 attribute/child branches; binary: complete binary tree"""
+    if shape == 'star':
+        return ['r', [['/', 'root']] + [[':op%d' % (i + 1), ['c%d' % i, [['/', 'k%d' % (i % 5)]]]] for i in range(n)] + [[':ARG0', 'c1'], [':ARG1-of', 'c%d' % (n - 1)]]]
+    if shape == 'comb':
+        cur = ['b%d' % (n // 4), [['/', 'end']]]
+        for i in range(n // 4 - 1, -1, -1):
+            cur = ['b%d' % i, [['/', 'k'], [':mod', 'x%d' % i], [':ARG0', ['l%d' % i, [['/', 'leaf'], [':quant', '%d' % i]]]], [':ARG1', cur]]]
+            if i > 80:
+                continue
+        return cur
+    def bt(i, d):
+        if d == 0:
+            return ['t%d' % i, [['/', 'leaf%d' % (i % 3)]]]
+        return ['t%d' % i, [['/', 'in'], [':ARG0', bt(2 * i + 1, d - 1)], [':ARG1-of', bt(2 * i + 2, d - 1)]]]
+    import math
+    return bt(0, max(1, int(math.log2(max(2, n))) - 1))
